@@ -12,8 +12,8 @@ LEVEL = "proof"
 PROPS = "Walk/Props_C01.v"
 COQ_FILES = wc.COQ_FILES + ["Walk/Invariant.v", "Walk/FaultProofs.v", "Walk/ConfineProofs.v", "Walk/ContainProofs.v",
                             "Walk/SubdirProofs.v", "Walk/Props_C01.v"]
-THEOREMS = ["walk_calls_exact_on_D", "walk_inventory_exact", "walk_status_exact", "subdir_request_equiv",
-            "requested_file_direct", "regex_and_glob_both_apply_refuted", "root_gitignore_applies_refuted"]
+THEOREMS = ["walk_calls_exact", "walk_inventory_exact", "walk_status_exact", "subdir_request_equiv",
+            "requested_file_direct"]
 
 META = {
     "technique": "Coq proof over all trees (nested induction: walk = execution of a pure schedule of handleFile calls; "
@@ -21,13 +21,13 @@ META = {
                  "against filesystem.Run / scalibr.Scan on generated in-memory trees",
     "level_text": "Theorems (all finite trees, all option combinations, arbitrary FileRequired/Extract callbacks and go-git / regexp / glob "
                   "oracles as functions): on fault-free trees without inode limit or cancellation the Extract calls of the engine model "
-                  "are exactly the declaratively specified ones, without duplicates (walk_calls_exact_on_D), the inventory is the "
+                  "are exactly the declaratively specified ones, without duplicates (walk_calls_exact), the inventory is the "
                   "attributed concatenation of what those calls returned (walk_inventory_exact), plugin statuses follow the calls "
                   "(walk_status_exact), an explicitly requested reachable sub-directory yields the whole-tree scan restricted to it "
                   "(subdir_request_equiv), an explicitly requested file is dispatched iff required (requested_file_direct). "
-                  "The full statement is REFUTED for the current code in two places (regex_and_glob_both_apply_refuted, "
-                  "root_gitignore_applies_refuted, both known findings); the positive theorem holds on the domain D = "
-                  "(regex and glob not both set) and (root has no .gitignore or gitignore handling is off). "
+                  "No domain restriction is left: the two former refutations (regex+glob both set; .gitignore in the scan root) were "
+                  "repaired in /repo (commits c6e92489, 9b0c17fd, 47f6ad08); their witnesses are in the regression corpus that runs first. "
+                  "Several roots: the calls of one Run are the concatenation of what each root owes (oracle; FileRequired may consult api.Stat()). "
                   "The model is tied to the code on every run by evaluating it with vm_compute on the cases the real engine was run on.",
     "level_note": "Trusted: Coq kernel + vm_compute; Go harness harness/cmd/walk (in-memory FS, fake extractors, recording collector); "
                   "go-git pattern matching, Go regexp and gobwas glob are oracles tabulated per case; names are identifiers; virtual "
